@@ -106,6 +106,7 @@ type v1run struct {
 	sendsAfterBad                 int
 	pressure                      int
 	pressureOnly                  uint
+	removedOnce                   bool
 	sawErrBad                     bool
 }
 
@@ -334,15 +335,18 @@ func (r *v1run) observe() {
 		}
 		if o.E == "RmvRet" {
 			delete(r.reg, o.P)
+			r.removedOnce = true
 			if r.cfg.Extra["pressure_after_remove"] == true {
 				r.pressure = 60
-				r.pressureOnly = 0 // every other run: only ONE of the remaining priorities gets the data, the others stay idle
-				if len(r.log)%2 == 0 {
-					for _, q := range r.cfg.Prios {
-						if _, ok := r.reg[q]; ok && (r.pressureOnly == 0 || len(r.log)%3 == 0) {
-							r.pressureOnly = q
-						}
+				r.pressureOnly = 0 // two runs out of three: only ONE of the remaining priorities gets the data, the others stay idle
+				var left []uint
+				for _, q := range r.cfg.Prios {
+					if _, ok := r.reg[q]; ok {
+						left = append(left, q)
 					}
+				}
+				if k := len(r.log) % 3; k < 2 && len(left) > 0 {
+					r.pressureOnly = left[(len(r.log)/3+k)%len(left)]
 				}
 			}
 		}
@@ -370,6 +374,10 @@ func (r *v1run) observe() {
 
 func (r *v1run) canProduce(c int) bool {
 	if r.closedIn[c] || r.nextItem[c] >= r.cfg.Items[fmt.Sprint(c)] {
+		return false
+	}
+	// "quiet" configurations: until the planned RemoveInput has returned only the priority that is going to be removed gets data
+	if r.cfg.Extra["quiet_until_remove"] == true && !r.removedOnce && len(r.cfg.Rmvs) > 0 && r.chPrio[c] != uint(r.cfg.Rmvs[0]) {
 		return false
 	}
 	if cap(r.ch[c]) == 0 {
@@ -780,7 +788,7 @@ func runV1(t *testing.T, cfg Config, seed int64, steps int, flush func(log []any
 		for range cfg.Rmvs {
 			plan = append(plan, planned{rnd.Intn(steps), "rmv"})
 		}
-		for i := 0; i < steps; i++ {
+		for i := 0; i < steps || (r.pressure > 0 && i < steps+400); i++ { // a pressure phase that has begun is played to its end
 			if i == faultStep {
 				r.faultKind = []string{"over", "under"}[rnd.Intn(2)]
 				r.faultAt = r.divCalls + 1 + rnd.Intn(2)
